@@ -9,7 +9,8 @@ PROOFS = [
   P("pop3_dele", "h_dele", "P_MSGNO", "qmail-pop3d.c pop3_dele(): marks exactly message n; a refused DELE has no effect", ["qmail-pop3d.c:pop3_dele", "qmail-pop3d.c:msgno"], min_tagged=3, unwind=4, cbmc_unwindset=["strlen.0:48"],
     canaries=[dict(name="dele-marks-neighbour", file="qmail-pop3d.c", literal=True, pattern="  m[i].flagdeleted = 1;\n  if (i + 1 > last)", repl="  m[i].flagdeleted = 1; if (i) m[i - 1].flagdeleted = 1;\n  if (i + 1 > last)", expect=r"C19: DELE n marks no other")]),
   P("pop3_top", "h_top", "P_MSGNO", "qmail-pop3d.c pop3_top() (RETR and TOP): opens exactly the file of message n, never a deleted one", ["qmail-pop3d.c:pop3_top", "qmail-pop3d.c:msgno"], min_tagged=2, unwind=4, cbmc_unwindset=["strlen.0:48"],
-    units=["harness.c", "stubs3.c"], remove_bodies={"harness.c": ["blast"]}),
+    units=["harness.c", "stubs3.c", "repo:substdio.c"], remove_bodies={"harness.c": ["blast"]},
+    canaries=[dict(name="read-buffer-not-reset", file="qmail-pop3d.c", literal=True, pattern="  substdio_fdbuf(&ssmsg,read,fd,ssmsgbuf,sizeof(ssmsgbuf));", repl="  ssmsg.fd = fd; ssmsg.x = ssmsgbuf; ssmsg.n = sizeof(ssmsgbuf); ssmsg.op = read;", expect=r"C19: every RETR/TOP starts with an empty read buffer")]),
   P("pop3_rset", "h_rset", "P_RSET", "qmail-pop3d.c pop3_rset(): every mark cleared (any number of messages)", ["qmail-pop3d.c:pop3_rset"], mode="dfcc", min_tagged=2,
     unwindset=["strlen.0:8"],
     loops=[dict(function="pop3_rset", head="for (i = 0;i <", invariants="i <= numm && (g_K < i ==> m[g_K].flagdeleted == 0)",
